@@ -303,4 +303,9 @@ def trace_calls(
         yield
     finally:
         sys.setprofile(old_trace)
-        logger.flush()
+        # Like failures while collecting a trace, a failure to store the traces
+        # must not reach (or mask an exception of) the traced program.
+        try:
+            logger.flush()
+        except Exception:
+            logging.getLogger(__name__).exception("Failed flushing traces")
